@@ -231,6 +231,11 @@ func genTopology(t *rapid.T, c *ev.Case, w *world) *world {
 	// sockets
 	for hi, mh := range w.hosts {
 		ns := rapid.IntRange(1, 2).Draw(t, "socks")
+		// a host with two addresses may run two sockets on ONE port, each bound to one address
+		onePort := len(mh.ips) >= 2 && ns == 2 && rapid.Bool().Draw(t, "onePort")
+		if onePort {
+			c.Label("host/two-sockets-one-port")
+		}
 		for k := 0; k < ns; k++ {
 			ip := mh.ips[rapid.IntRange(0, len(mh.ips)-1).Draw(t, "sip")]
 			switch rapid.IntRange(0, 5).Draw(t, "bind") {
@@ -242,6 +247,9 @@ func genTopology(t *rapid.T, c *ev.Case, w *world) *world {
 				}
 			}
 			port := 4000 + 10*hi + k
+			if onePort {
+				ip, port = mh.ips[k], 4000+10*hi
+			}
 			cn, err := w.vh[hi].ListenUDP("udp", &net.UDPAddr{IP: net.ParseIP(ip), Port: port})
 			if err != nil {
 				t.Fatalf("ListenUDP(%s:%d) on host %d: %v", ip, port, hi, err)
@@ -511,7 +519,7 @@ func sockName(s *mSock) string {
 	return fmt.Sprintf("s%d", s.id)
 }
 
-const ruleC01 = "rapid-drawn topology built through the public API (root router; 0..4 child routers nested to depth 3, each NAPT with one of the 9 mapping x filtering behaviours and static or automatic parent-side addresses, or 1:1 with 1..2 address pairs; 1..2 hosts per router with automatic, one or two static addresses; 1..2 sockets per host bound to a specific address, the wildcard or loopback) with a pass-through capture filter on every router; sequential phase of 5..40 sends (destination: another socket's address, a reply to an observed translated source, an unbound port, an unroutable address, loopback, an external NAT address with a learned or arbitrary port; size 0..1484 incl. empty; the sender overwrites its buffer after the write), the network brought to quiescence after each (all router loops parked); a model (Appendix A) walks every datagram hop by hop against the captures, learning NAPT addresses, and the sockets' receive queues are compared: delivered iff admitted, exactly once, byte-identical, only to the socket bound to the destination, showing the translated source; then a concurrent phase replays the established flows from 2..6 goroutines in bursts and checks per-flow order, no duplicates, no foreign socket, completeness; non-trivial = a datagram crossed a NAT outbound and a reply crossed it inbound; distinct by hash of topology + plan"
+const ruleC01 = "rapid-drawn topology built through the public API (root router; 0..4 child routers nested to depth 3, each NAPT with one of the 9 mapping x filtering behaviours and static or automatic parent-side addresses, or 1:1 with 1..2 address pairs; 1..2 hosts per router with automatic, one or two static addresses; 1..2 sockets per host bound to a specific address, the wildcard or loopback, on a two-address host possibly both on one port) with a pass-through capture filter on every router; sequential phase of 5..40 sends (destination: another socket's address, a reply to an observed translated source, an unbound port, an unroutable address, loopback, an external NAT address with a learned or arbitrary port; size 0..1484 incl. empty; the sender overwrites its buffer after the write), the network brought to quiescence after each (all router loops parked); a model (Appendix A) walks every datagram hop by hop against the captures, learning NAPT addresses, and the sockets' receive queues are compared: delivered iff admitted, exactly once, byte-identical, only to the socket bound to the destination, showing the translated source; then a concurrent phase replays the established flows from 2..6 goroutines in bursts and checks per-flow order, no duplicates, no foreign socket, completeness; non-trivial = a datagram crossed a NAT outbound and a reply crossed it inbound; distinct by hash of topology + plan"
 
 func TestC01Delivery(t *testing.T) {
 	r := ev.New("C01", "delivery", ruleC01)
